@@ -473,4 +473,10 @@ def write_evidence(prop: str, ctx: Ctx, ps: ProofStatus, res: Result, wall: floa
         "wall_s": round(wall, 2),
         "violations": violations,
     }
-    (EVIDENCE / f"{prop}.json").write_text(json.dumps(ev, indent=1, default=repr))
+    target = EVIDENCE
+    if str(REPO) != "/repo":
+        # a run against another checkout (candidate fix, seeded change) must not overwrite the evidence of /repo
+        target = BUILD / "evidence-other-tree"
+        ev["coverage"]["notes"] = ev["coverage"].get("notes", []) + [f"run against WATCHDOG_REPO={REPO}"]
+    target.mkdir(parents=True, exist_ok=True)
+    (target / f"{prop}.json").write_text(json.dumps(ev, indent=1, default=repr))
